@@ -518,7 +518,12 @@ class HelicityAmplitudeBuilder:
         if prefactor is not None:
             expression *= prefactor
         subscript = self.naming.generate_amplitude_name(transition)
-        self.__ingredients.components[f"A_{{{subscript}}}"] = expression
+        component_name = f"A_{{{subscript}}}"
+        if component_name in self.__ingredients.components:
+            # symmetrized chains of identical particles share one name
+            self.__ingredients.components[component_name] += expression
+        else:
+            self.__ingredients.components[component_name] = expression
         return expression
 
     def _formulate_partial_decay(
